@@ -83,7 +83,8 @@ func StreamEnd(role string, end *memnet.StreamEnd, wait func(), opts ...any) (cc
 		c := got
 		mu.Unlock()
 		if c != nil {
-			return c, func() { srv.Stop(); <-done }, nil
+			var once sync.Once
+			return c, func() { once.Do(func() { srv.Stop(); <-done }) }, nil
 		}
 		time.Sleep(time.Millisecond)
 	}
@@ -132,7 +133,8 @@ func PacketEnd(role string, end *memnet.PacketEnd, wait func(), opts ...any) (cc
 		c := got
 		mu.Unlock()
 		if c != nil {
-			return c, func() { srv.Stop(); <-done }, nil
+			var once sync.Once
+			return c, func() { once.Do(func() { srv.Stop(); <-done }) }, nil
 		}
 		time.Sleep(time.Millisecond)
 	}
